@@ -173,9 +173,11 @@ def main():
         print("CHECKER-ERROR property=%s internal error of the checker" % pid)
         sys.exit(2)
     from lin import Finding
+    anchors = []
     for name, measured, floor in res.floors:
         if measured < floor:
-            res.findings.append(Finding("CHECKER-ANCHOR", "-", "%s: %d instances examined, at least %d expected (the rule lost its anchor)" % (name, measured, floor), ""))
+            anchors.append(Finding("CHECKER-ANCHOR", "-", "%s: %d instances examined, at least %d expected (the rule lost its anchor)" % (name, measured, floor), ""))
+    res.findings += anchors
     known, fixed = load_known()
     # dedupe by key
     uniq = {}
@@ -190,6 +192,23 @@ def main():
         if f.rule not in ("CORPUS.BUILD", "CHECKER-ANCHOR") and not f.rule.endswith(".BUILD") and any(x in f.what for x in NO_VERDICT) \
                 and "keys behind a longer run" not in f.what:
             f.undecided = True
+    # generated code that delegates to library helpers the readers do not model (a template restructured around run-time
+    # helpers): what the rules extract from such code is not the whole story -> no verdict on those bodies (DESIGN §14)
+    try:
+        import derive_prop
+        unk = derive_prop.unknown_library_api(ctx) if ctx._corpus.get("catalogue") else []
+    except Exception:
+        unk = []
+    if unk:
+        for f in uniq.values():
+            if " as deserr::Deserr<" in (f.body or "") and not f.rule.endswith(".BUILD"):
+                f.undecided = True
+    # a count below its floor beside rules that said "construct not recognised" is the same statement once more, not a verdict;
+    # a count below its floor with nothing else said stays fatal (a rule that silently matches nothing)
+    if any(getattr(f, "undecided", False) for f in uniq.values()):
+        for f in uniq.values():
+            if f.rule == "CHECKER-ANCHOR":
+                f.undecided = True
     for k, f in sorted(uniq.items()):
         if getattr(f, "undecided", False):
             undecided.append(f)
